@@ -168,7 +168,7 @@ def registry(_case):
         properties=list(vp.PROPERTIES), expanders=list(ve.EXPANDERS), known=sorted(KNOWN_PROPERTIES),
         not_print=sorted(validation.NOT_PRINT_MEDIA), proprietary=sorted(vp.PROPRIETARY),
         unstable=sorted(vp.UNSTABLE), prefix=vp.PREFIX, initial=sorted(INITIAL_VALUES),
-        lengths_source=table, lengths_runtime=[(k, repr(float(v))) for k, v in utils.LENGTHS_TO_PIXELS.items()],
+        id_initial=vid('initial'), id_inherit=vid('inherit'), lengths_source=table, lengths_runtime=[(k, repr(float(v))) for k, v in utils.LENGTHS_TO_PIXELS.items()],
         length_units=sorted(utils.LENGTH_UNITS), test_strings=sorted(test_strings), words=words)
 
 
@@ -399,8 +399,6 @@ def dispatch_case(case):
                     val = ['pexp', [tok_json(t, atoms) for t in v.tokens], _clean(v.validator.keywords['name'])]
                 else:
                     val = ['pprop', [tok_json(t, atoms) for t in v.tokens], _clean(v.name)]
-            elif isinstance(v, str) and v in ('initial', 'inherit'):
-                val = ['kw', v]
             else:
                 val = ['val', vid(v)]
             outs.append([_clean(k), val])
